@@ -22,8 +22,8 @@ CHECKS = {
          'All byte strings of length <=5 (thorough 6) over a 14-byte alphabet as .json and .toml files; every single (thorough: double) directive injection into every base tree in 5 layerings and 3 file formats; all 125k three-key reference graphs; all 512x3 $parent digraphs; 39 hand-written YAML texts; CLI exit contract for all four tools on a subset. Oracle: returns output xor error, no panic, step budget not exceeded, worker survives, definite cycles are errors.',
          'Step budget counts instrumented function/loop entries of package bkl only; dependencies are covered by the worker watchdog. Cycle => error is asserted only for pure whole-value reference cycles and $parent cycles.', '4/C08'),
  'C09': ('E4', 'stateless choice-point DFS over all map-iteration orders within a deviation bound and over all interleavings of shared-variable accesses within a pre-emption bound, on an overlay-instrumented build; separate free-running -race pass',
-         'For every input (hand-picked order-sensitive documents plus generated trees and merge pairs) all executions with <=2 (thorough 3) non-default picks at every map range site vinstr finds in the working tree, and a second pass that also controls every maps.Keys/Values/All call site (so a comparator that is not a total order shows); all 2-thread (<=2 pre-emptions) and 3-thread (<=1) interleavings at accesses to mutable package-level variables; 16-goroutine free-running pass under the race detector; two fresh CLI processes per input. Every execution must produce the observation of the default execution.',
-         'Map iteration inside dependencies is not controlled. The scheduler is sequentially consistent and only interleaves at package-level variable accesses (none mutable on the current tree); the -race pass guards that assumption.', '4/C09'),
+         'For every input (hand-picked order-sensitive documents plus generated trees and merge pairs) all executions with <=2 (thorough 3) non-default picks at every map range site vinstr finds in the working tree, and a second pass that also controls every maps.Keys/Values/All call site (so a comparator that is not a total order shows); all 2-thread (<=2 pre-emptions) and 3-thread (<=1) interleavings at accesses to mutable package-level variables, and every hand-picked input alone under the same scheduler - goroutines the library itself starts (go statements are rewritten to scheduler threads, sync.Mutex/RWMutex/WaitGroup/Once are routed to a scheduler-aware stand-in package) become threads whose every completion order is explored; 16-goroutine free-running pass under the race detector; two fresh CLI processes per input. Every execution must produce the observation of the default execution.',
+         'Map iteration inside dependencies is not controlled. The scheduler is sequentially consistent and interleaves at package-level variable accesses, go statements and Lock/Wait/Do (no mutable globals and no go statements on the current tree, which the evidence reports); channel operations, sync.Cond and atomics are not modelled: vinstr lists such sites and an exploration that blocks in one is abandoned and reported as not applicable, not judged; the -race pass guards the rest.', '4/C09'),
  'C11': ('E1+E2', 'bounded-exhaustive enumeration of all marker placements on all small trees, compared with an independent selection/hiding model',
          'Every tree with <=6 (thorough 7) nodes over keys {a,b,$output} and scalars {1,true,false} and every 2-document stream of trees <=3 nodes; outputs must equal ref.Outputs (multiset where a selection contains another selection), and no $output marker may survive.',
          'Trusted: ref.Outputs (select/hide/final), 150 lines.', '4/C11'),
